@@ -40,6 +40,7 @@ Proof.
   - inversion H; reflexivity.
   - inversion H; reflexivity.
   - inversion H; reflexivity.
+  - destruct (s_cb s) as [cnt fault]. inversion H; reflexivity.
   - inversion H; subst. destruct (s_call_params s) eqn:E; [reflexivity|].
     unfold shape; cbn. rewrite E. reflexivity.
 Qed.
@@ -235,6 +236,7 @@ Proof.
   - inversion H; subst; (left; reflexivity).
   - inversion H; subst; (left; reflexivity).
   - inversion H; subst; (left; reflexivity).
+  - destruct (s_cb s) as [cnt fault]. inversion H; subst; (left; reflexivity).
   - inversion H; subst. destruct (s_call_params s); left; reflexivity.
 Qed.
 
